@@ -45,6 +45,10 @@ THEOREM_NOTES = {
     "C08_seeded_repeatable": "equality of the complete position traces from any two ambient generator states; that equal "
         "positions give equal values (hence equal schedules, by induction along the run) is not formalised: the schedule is a "
         "parameter common to both runs; monitored by the bit-for-bit comparison of two seeded runs on the implementation",
+    "C08_seeded_repeatable_adaptive": "closes most of that gap: every later instruction is an arbitrary function of the event "
+        "history (positions included, hence values), only the first instruction is required to be the seed, which holds for the "
+        "three engine models by definition; the class of decision functions that generate exactly std_ops/mlc_ops/mlp_ops is "
+        "not characterised",
     "C08_pool_jump_mode_disjoint": "worker pool of the standard engine in jump-time mode, for every assignment of chunks to "
         "workers; hypothesis: pairwise different worker seeds ((pid*int(time)) % 123456789 of live processes; not proved distinct)",
     "C08_workers_share_rows_refuted": "finding F-C08-3 on the delivered tree (design of the pool): fixed-date mode with "
@@ -378,8 +382,8 @@ def repeat_oracle(res, E, cfg, runner, rng):
     every value stored in the statistics, and the price where every statistics row is written by the run
     (the adaptive price() averages rows it never wrote -- property C05's concern -- so its price is not compared)"""
     out = []
-    for _ in range(2):
-        r = runner(E, cfg, rng)
+    for k in range(2):     # the second run happens later (other clock value) and from another ambient generator state
+        r = runner(E, dict(cfg, T=cfg["T"] + 97 * k), rng)
         out.append((stored_values(r[0]), r[3] if cfg["engine"] != "mlp" else None))
     if out[0] != out[1]:
         k = next((i for i, (a, b) in enumerate(zip(out[0][0], out[1][0])) if a != b), None)
@@ -547,8 +551,9 @@ def process_run(res, E, group, cfg, rng):
     rt = E["rt"]
 
     def note_problems(can, who="parent"):
-        for p in can.problems:
-            res.broke("correspondence trace well-formedness", f"{p} [{who}] config={cfg}")
+        if can.problems and sum(1 for b in res.broken if b["obligation"] == "correspondence trace well-formedness") < 12:
+            res.broke("correspondence trace well-formedness",
+                      f"{len(can.problems)} problem(s), first: {can.problems[0]} [{who}] config={cfg}")
 
     if group == "std":
         evs, _, vals, price = run_std(E, cfg, rng)
